@@ -158,6 +158,32 @@ Print Assumptions C17_reject.
 Print Assumptions C17_elementwise.
 Print Assumptions C17_elementwise_error.
 
+(* ---- positions: element-wise inside ANY annotated container ---------------------------------------
+   `load_pos f p j`: the annotated type is a tree p (List / variadic tuple, Dict with str or
+   date/time keys, fixed tuple / NamedTuple, TypedDict / nested dataclass, Optional,
+   Union[leaf, non-date members], other members); f is the element loader (load0 / load1 with
+   the field's patterns), applied at each date/time leaf with that leaf's kind and class. *)
+Theorem C17_positions_leaf :
+  forall f k c s e,
+  load_pos f (PLeaf k c) (JStr s) = of_outcome (f k c s) /\
+  load_pos f (PUnion e) (JStr s) = load_pos f e (JStr s) /\
+  load_pos f (POpt e) (JStr s) = load_pos f e (JStr s).
+Proof. intros. repeat split. Qed.
+Print Assumptions C17_positions_leaf.
+
+Theorem C17_positions_seq :
+  forall f e (h : jv -> tv) l,
+  (forall x, In x l -> load_pos f e x = inl (h x)) -> load_pos f (PSeq e) (JArr l) = inl (TArr (map h l)).
+Proof. exact load_pos_seq_all. Qed.
+Print Assumptions C17_positions_seq.
+
+(* whatever the shape (any nesting depth): a ParseError naming patterns can only be the element
+   loader's verdict on some leaf string - containers neither invent nor swallow rejections *)
+Theorem C17_positions_error_origin :
+  forall f p j ps, load_pos f p j = inr (TParse ps) -> exists k c s, f k c s = ParseErr ps.
+Proof. exact load_pos_error_origin. Qed.
+Print Assumptions C17_positions_error_origin.
+
 (* ---- the premises are satisfiable: a concrete pattern / value / oracle ------------------------ *)
 Definition ex_v : stamp := {| yr := 2022; mo := 1; dy := 3; hh := 15; mi := 45; ss := 0; us := 0; tz := None; fold := 0 |}.
 Definition ex_strp (p s : pstr) : option stamp :=
